@@ -125,6 +125,30 @@ def bounded_selection(ctx, rule):
     else:
         ctx.fail(rule, key, nb.where(), "the fill/sort phase is not guarded by the done flag",
                  {"witness": "after the first item the remaining buffer is re-sorted and reversed again: order alternates"}, kind="S")
+    # every item taken from the source is pushed: no path from the `Some` arm of source.next() back to the next
+    # source.next() (or on to the final phase) avoids the push
+    key = "every-item-buffered"
+    src_next = [bi for bi, t in nb.calls() if (t.get("cn") or "").endswith("Iterator::next") and t["args"] and
+                is_field(sy.operand(t["args"][0]), f_src)]
+    ok_items = False
+    if src_next and pushes:
+        nbi = src_next[0]
+        tgt = nb.blocks[nbi]["term"].get("target")
+        sw = nb.blocks[tgt]["term"] if tgt is not None else None
+        if sw is not None and sw["k"] == "switch":
+            some_t = [b_ for v, b_ in sw["targets"] if v == 1]
+            some_t = some_t[0] if some_t else None
+            if some_t is not None:
+                goals = set([nbi] + [tb for tb, _, _ in truncs if not cfg.in_loop(tb)] + [pop])
+                leak = any(cfg.path_exists(some_t, g, avoid=pushes) or some_t == g for g in goals) and some_t not in pushes
+                ok_items = not leak
+    if ok_items:
+        ctx.ok(rule, key, nb.where(), "every item yielded by the source is pushed into the buffer before the next one is fetched",
+               nontrivial=True, kind="S")
+    else:
+        ctx.fail(rule, key, nb.where(), "an item yielded by the source can be dropped without being buffered (a fast path / early "
+                 "`continue` in the fill loop): the cut is no longer the best `limit` of all items",
+                 {"witness": "a strong candidate arriving before the first sort makes later, better candidates be skipped"}, kind="S")
     # (iii) forwarders keep the argument order
     for cb in [c for c in facts.closures_of(nb)] + [c2 for c in facts.closures_of(nb) for c2 in facts.closures_of(c)]:
         if cb.arg_count != 3:
@@ -332,6 +356,28 @@ def search_chain_shape(ctx, rule, parts=("order", "score", "filter", "comparator
             te = d.get("title")
             ok = ide[0] == "field" and ide[2] == "id" and S.strip_refs(ide[1]) == ("arg", 2) and \
                 te[0] == "call" and te[1].endswith("highlight::highlight") and S.strip_refs(te[2][0]) == ("arg", 2)
+    if "result-id" in parts and "result" not in parts:
+        # weaker form for properties that only need the id to belong to the hit: every SearchResult built in the stage
+        # takes its id from the hit parameter
+        ok_id = False
+        if rb is not None:
+            ok_id = True
+            n_agg = 0
+            rsy = ctx.sym(rb)
+            for bi_, si_, st_ in rb.iter_stmts():
+                if st_["k"] == "assign" and st_["rv"]["k"] == "agg" and st_["rv"].get("did", "").endswith("SearchResult"):
+                    n_agg += 1
+                    e_ = rsy.rvalue(st_["rv"])
+                    d_ = dict(zip(e_[4], e_[3]))
+                    ide_ = S.strip_refs(d_.get("id"))
+                    if not (ide_[0] == "field" and ide_[2] == "id" and S.strip_refs(ide_[1]) == ("arg", 2)):
+                        ok_id = False
+            ok_id = ok_id and n_agg >= 1
+        if ok_id:
+            ctx.ok(rule, key, rb.where(), "each result carries the id of the hit it was built from", nontrivial=True)
+        else:
+            ctx.fail(rule, key, sb.where(), "a result does not take its id from the hit it was built from",
+                     {"witness": "hit ids do not belong to the shown titles"})
     if "result" in parts:
         if ok:
             ctx.ok(rule, key, rb.where(), "each result is {id: hit.id, title: highlight(&hit, dividers)} of the same hit", nontrivial=True)
@@ -1013,3 +1059,43 @@ def rating_monotone(ctx, rule):
     else:
         ctx.fail(rule, key, fb.where(), "the rating component is not the rating itself (or a clamp above 2^31-1): %s" % S.show(e, fb),
                  {"witness": "among identical titles a higher rating does not come first"})
+
+
+def matcher_reads_normalised_text(ctx, rule):
+    """R11.i: on the matching path (word_match, text_match, the gates, the distance, the index) the text is read only through the
+    normalised views (`chars`, `classes`); the original `source` is read by the title builder alone"""
+    facts = ctx.facts
+    roots = [b.id for b in facts.fns() if b.cn.endswith(("matching::text::text_match", "matching::word::word_match",
+                                                          "TrigramIndex::collect_grams", "search::filter::hit_matches"))]
+    if not ctx.floor(rule, "matching_roots", len(roots), 3):
+        return
+    reach = ctx.cg.reachable(roots)
+    bad = []
+    for bid in sorted(reach):
+        b = facts.bodies[bid]
+        if b.cn.endswith(("WordView::new", "WordView::join", "WordShape::to_view", "Text::to_ref", "WordView::to_shape")) or b.impl_trait:
+            continue
+        sy = ctx.sym(b)
+        for bi, t in b.calls():
+            if (t.get("rcn") or "").endswith("WordView::source"):
+                bad.append((b, bi, t, "WordView::source()"))
+        for bi, si, st in b.iter_stmts():
+            if st["k"] != "assign" or b.blocks[bi]["cleanup"]:
+                continue
+            rv = st["rv"]
+            ops = [rv.get(k) for k in ("op", "a", "b") if isinstance(rv.get(k), dict)]
+            if rv["k"] == "ref":
+                ops.append({"copy": rv["place"]})
+            for o in ops:
+                p = o.get("copy") or o.get("move")
+                if p:
+                    for pr in p["p"]:
+                        if isinstance(pr, dict) and pr.get("name") == "source" and (pr.get("owner_did") or "").endswith(("::Text", "::WordView")):
+                            bad.append((b, bi, st, "field `source`"))
+    key = "no-source-on-matching-path"
+    if not bad:
+        ctx.ok(rule, key, "-", "no body on the matching path (%d bodies) reads the original text" % len(reach), nontrivial=True)
+    else:
+        b, bi, node, what = bad[0]
+        ctx.fail(rule, key, where(b, bi, node), "%s reads %s on the matching path: case and accents of the query/title leak into "
+                 "the comparison" % (b.id, what), {"witness": "query 'METAL' (or 'été') no longer matches 'metal' ('ete')"})
